@@ -446,3 +446,58 @@ fn c12a_garbage_after_stream() {
     kani::cover!(g[0] == 0xFD, "starts like the magic but is not");
     core::mem::forget(r);
 }
+
+// C07-E: a zero-length read in the middle of a block returns Ok(0) and does not disturb the stream (it must not be
+// mistaken for the end of the block).
+//@ {"name":"c07e_xz_zero_len_read_mid_block","props":["C07"],"obligation":"C07-E","timeout":900,"functions":["xz::reader::XZReader::read"],"bounds":"reader in the state 'inside a block' (stream header parsed, CRC32 calculator active), inner chain = a source with 4 unread bytes; destination length 0, then 4","assumes":["block chain replaced by a plain byte source (the filter chain is not the subject)"],"stubs":["block chain = Src"]}
+#[kani::proof]
+#[kani::unwind(10)]
+fn c07e_xz_zero_len_read_mid_block() {
+    let data: [u8; 4] = kani::any();
+    let mut r = XZReader::new(Src::<4>::full(data), false);
+    r.stream_header = Some(StreamHeader { check_type: CheckType::Crc32 });
+    r.checksum_calculator = Some(ChecksumCalculator::new(CheckType::Crc32));
+    r.blocks_processed = 1;
+    let z = r.read(&mut []);
+    assert!(matches!(z, Ok(0)), "C07-E: zero-length read failed");
+    assert!(r.checksum_calculator.is_some(), "C07-E: zero-length read was treated as the end of the block");
+    assert!(r.original_reader.borrow().pos == 0, "C07-E: zero-length read consumed input");
+    let mut out = [0u8; 4];
+    let n = r.read(&mut out);
+    assert!(matches!(n, Ok(4)) && out == data, "C07-E: data after a zero-length read differs");
+    kani::cover!(true, "end reached");
+    core::mem::forget(r);
+}
+
+// C12-B / C16-C: with multi-stream decoding off, after the index and footer of the first stream the reader reports
+// end of data, has consumed exactly index + footer, and does not look at what follows.
+//@ {"name":"c16c_xz_stops_after_footer","props":["C16","C12"],"obligation":"C16-C","timeout":1800,"mem_gb":9,"functions":["xz::reader::XZReader::prepare_next_block","xz::reader::XZReader::parse_index_and_footer","xz::reader::Index::parse","xz::reader::StreamFooter::parse"],"bounds":"source = index indicator + empty index + footer of a CRC32 stream (20 concrete bytes) followed by 4 arbitrary trailing bytes; multi-stream off; unwind 24","assumes":[]}
+#[kani::proof]
+#[kani::unwind(24)]
+fn c16c_xz_stops_after_footer() {
+    let mut buf = [0u8; 24];
+    // index: 00 | 00 (count) | 00 00 (padding) | crc32
+    let ic = crc32_of(&[0u8, 0, 0, 0]).to_le_bytes();
+    buf[4] = ic[0]; buf[5] = ic[1]; buf[6] = ic[2]; buf[7] = ic[3];
+    // footer: crc32 | backward size (1 => (1+1)*4 = 8) | flags 00 01 | 'Y' 'Z'
+    let body = [1u8, 0, 0, 0, 0, 1];
+    let fc = crc32_of(&body).to_le_bytes();
+    buf[8] = fc[0]; buf[9] = fc[1]; buf[10] = fc[2]; buf[11] = fc[3];
+    let mut i = 0;
+    while i < 6 { buf[12 + i] = body[i]; i += 1; }
+    buf[18] = b'Y'; buf[19] = b'Z';
+    let trailing: [u8; 4] = kani::any();
+    i = 0;
+    while i < 4 { buf[20 + i] = trailing[i]; i += 1; }
+    let mut r = XZReader::new(Src::<24>::full(buf), false);
+    r.stream_header = Some(StreamHeader { check_type: CheckType::Crc32 });
+    let res = r.prepare_next_block();
+    assert!(matches!(res, Ok(false)), "C16-C: valid index+footer not accepted as end of stream");
+    assert!(r.finished);
+    assert!(r.original_reader.borrow().pos == 20, "C16-C: reader did not stop exactly after the stream footer");
+    let mut out = [0u8; 2];
+    assert!(matches!(r.read(&mut out), Ok(0)));
+    assert!(r.original_reader.borrow().pos == 20, "C16-C: bytes after the stream were consumed");
+    kani::cover!(trailing[0] == 0xFD, "another stream follows");
+    core::mem::forget(r);
+}
